@@ -29,7 +29,8 @@ INLINE_FOOTNOTE = r"\[\^(?P<footnote_key>" + LINK_LABEL + r")\]"
 def parse_inline_footnote(inline: "InlineParser", m: Match[str], state: "InlineState") -> int:
     key = unikey(m.group("footnote_key"))
     ref = state.env.get("ref_footnotes")
-    if ref and key in ref:
+    # an image description is rendered as plain text: a reference in it could not link to its note
+    if ref and key in ref and not state.in_image:
         notes = state.env.get("footnotes")
         if not notes:
             notes = []
